@@ -199,7 +199,7 @@ def check_scrub_release_clears_group(ctx, inst):
         return
     rs = ctx.sites(b, R.call("FreeSpaceManager::release_sectors"), inst, exact=1)
     for nm in ("write_buffer::mark_reservation_clean", "write_buffer::clear_reserved_sector"):
-        cs = ctx.sites(b, R.call(nm), inst, exact=1)
+        cs = ctx.sites(b, flag_op_sel("clean") if nm.endswith("mark_reservation_clean") else R.call(nm), inst, exact=1)
         for c in cs:
             e = R.arg_expr(b, b.nodes[c], 0)
             it = range_indexed_iteration(b, e)
@@ -656,3 +656,24 @@ def check_handoff(ctx, inst):
 def path_matches_any(path, names):
     from feoxlint.model import path_matches
     return any(path_matches(path, n) for n in names)
+
+
+FLAG_OPS = {   # reservation flag operations on WriteEntry.work_status: helper, atomic op, flag constant, mask negated, reviewed inline sites
+    "clean": ("write_buffer::mark_reservation_clean", "fetch_and", "RESERVATION_DIRTY", True, ("write_buffer::release_scrubbed_allocations",)),
+    "dirty": ("write_buffer::mark_reservation_dirty", "fetch_or", "RESERVATION_DIRTY", False, ("write_buffer::process_write_batch",)),
+    "quarantine": ("write_buffer::quarantine_reservation", "fetch_or", "RESERVATION_QUARANTINED", False, ("write_buffer::quarantine_allocations",)),
+}
+
+
+def flag_mask_ok(v, const, neg):
+    if neg:
+        return v.k == "un" and v.extra == "Not" and v.a[0].k == "const" and v.a[0].has_const(name=const)
+    return v.k == "const" and v.has_const(name=const)
+
+
+def flag_op_sel(kind):
+    """the place where a reservation flag is changed: the one-line helper, or the same single-flag read-modify-write written out
+    (a helper inlined into its only caller is the same operation)"""
+    helper, op, const, neg, _ = FLAG_OPS[kind]
+    inline = R.field_write("WriteEntry", "work_status", ops=[op]).filter(lambda bb, n: flag_mask_ok(R.arg_expr(bb, n, 1), const, neg), "%s(%s%s)" % (op, "!" if neg else "", const))
+    return R.call(helper) | inline
